@@ -515,7 +515,7 @@ impl Prop for C03 {
         t.pick(64 + 60 * 4, 64 + 300 * 4)
     }
     fn cases(&self, t: Tier) -> usize {
-        t.pick(20_000, 400_000)
+        t.pick(150_000, 6_000_000)
     }
     fn rule(&self) -> String {
         "tape-decoded history: optimizer kind x hyper-parameters (valid ranges, exact 0 -> validate's default, None/Some(0)/Some(x) for decay and momentum, dampening, centred) x 1-2 logical parameters of flat length 1..16, each materialised in up to 4 slots (layer, filter, bias) as vector / matrix / 3-D tensor, x 1..60 (thorough 300) update steps naming a logical parameter, a step number (constant 1, increasing, repeated, arbitrary) and a gradient class (random, constant, sparse, sign-flipping, tiny 1e-20..1e-8, large 1e2..1e4). Oracles: documented equations in f64 with an f32 shadow for conditioning; rank independence <= 4 ulp; slot isolation bitwise against a solo run; finiteness. Non-trivial: >= 3 steps on one parameter with a stateful optimizer, or a rank >= 2 slot, or >= 2 interleaved slots. Distinct = (kind, hyper-parameters, rank multiset, step-number pattern, first 12 gradient classes, step count).".into()
